@@ -71,6 +71,13 @@ def _is_random(f, arg, at, depth=0):
     for x in walk(s):
         if x["k"] == "CallExpr" and x.get("callee") == "rand":
             return True
+        if x["k"] == "CallExpr" and x.get("callee") and depth < 3:
+            # a same-unit helper that returns the (possibly renamed) number: judged by what it can return
+            h = f.unit.funcs.get(x["callee"])
+            if h is not None and h is not f:
+                for r in h.walk():
+                    if r["k"] == "ReturnStmt" and r.get("c") and r["c"][0] is not None and _is_random(h, r["c"][0], r, depth + 1):
+                        return True
     if s["k"] == "DeclRefExpr" and s.get("dk") == "Var" and depth < 3:
         for d in _reaching_defs(f, s["n"], at):
             rhs = d["c"][1] if d["k"] == "BinaryOperator" else (d["c"][0] if d.get("c") else None)
@@ -134,35 +141,88 @@ def r_anchor(P, chk):
     # every note call anchor (href="#fn:/#cn:/#gn:" with class footnote/citation/glossary) is governed by the
     # first-use test: re-use prints no id, first use prints id="<fam>ref:"
     n_calls = 0
+    from .prog import edpe_blocks
     for fam, stack in (("fn", "used_footnotes"), ("cn", "used_citations"), ("gn", "used_glossaries")):
         for kind, f, c, arg, rnd in sites.get(fam, []):
             if kind != "href":
                 continue
             s_, _ = _format_args(c)
-            if 'class="' not in s_ or "reverse" in s_:
+            if ('<a href="#%s:' % fam) not in s_ or "reverse" in s_:
                 continue
             n_calls += 1
-            gov = None
-            cur = c
-            for a in f.ancestors(c):
-                if a["k"] == "IfStmt" and ("->%s->size" % stack) in key(a["c"][0]) and "==" in key(a["c"][0]):
-                    then, els = a["c"][1], a["c"][2]
-                    if then is not None and any(x is c for x in walk(then)):
-                        gov = "reuse"
-                    elif els is not None and any(x is c for x in walk(els)):
-                        gov = "first"
-                    break
+            pos = f.cfg.positions()
+
+            def decide(first):
+                def d(t_):
+                    t2 = strip(t_)
+                    if t2 is not None and t2["k"] == "BinaryOperator" and t2["op"] in ("==", "!=") and ("->%s->size" % stack) in key(t2):
+                        same = not first            # `before == size` holds on re-use
+                        return same if t2["op"] == "==" else not same
+                    return None
+                return d
+            e_first, e_reuse = set(), set()
+            b_first = edpe_blocks(f, "?none", 0, extra_decide=decide(True), edges_out=e_first)
+            b_reuse = edpe_blocks(f, "?none", 0, extra_decide=decide(False), edges_out=e_reuse)
+            ids = [c2 for k2, f2, c2, _, _ in sites.get(fam + "ref", []) if k2 == "id" and f2 is f and c2.get("i") in pos]
+            idb = {pos[c2["i"]][0] for c2 in ids}
+            hb = pos[c["i"]][0] if c.get("i") in pos else None
             has_id = ('id="%sref:' % fam) in s_
-            ok = (gov == "reuse" and not has_id) or (gov == "first" and has_id)
-            chk.obligation(rid, "%s %s: %s call anchor is the %s branch of the first-use test and %s id=\"%sref:\"" % (
-                f.where(c), f.name, fam, gov, "prints" if has_id else "prints no", fam), ok)
+
+            def escapes(edges, blocks):
+                """can the function be left from the href's block without printing an id of the family (pruned CFG)?"""
+                if hb is None or hb not in blocks:
+                    return None               # the site does not run under this decision
+                if has_id:
+                    return False
+                succ = {}
+                for x, y in edges:
+                    succ.setdefault(x, []).append(y)
+                seen, st = set(), [hb]
+                while st:
+                    x = st.pop()
+                    if x in seen:
+                        continue
+                    seen.add(x)
+                    if x in idb and x != hb:
+                        continue
+                    if x == f.cfg.exit:
+                        return True
+                    st.extend(succ.get(x, ()))
+                # an id printed in the href's own block after it counts as well
+                return False
+            first_escape = escapes(e_first, b_first)
+            # on re-use no id may be printed with this anchor: neither in the literal nor reachable before leaving
+            reuse_bad = None
+            if hb is not None and hb in b_reuse:
+                if has_id:
+                    reuse_bad = True
+                else:
+                    succ = {}
+                    for x, y in e_reuse:
+                        succ.setdefault(x, []).append(y)
+                    seen, st = set(), [hb]
+                    reuse_bad = False
+                    while st:
+                        x = st.pop()
+                        if x in seen:
+                            continue
+                        seen.add(x)
+                        if x in idb and x != hb:
+                            reuse_bad = True
+                            break
+                        st.extend(succ.get(x, ()))
+            governed = any(("->%s->size" % stack) in key(y) for y in f.walk() if y["k"] == "BinaryOperator" and y["op"] in ("==", "!="))
+            ok = governed and not first_escape and not reuse_bad
+            gov = "first" if (first_escape is not None and reuse_bad is None) else ("reuse" if first_escape is None else "both")
+            chk.obligation(rid, "%s %s: %s call anchor carries id=\"%sref:\" exactly on first use (decided by path condition)" % (
+                f.where(c), f.name, fam, fam), ok)
             if not ok:
-                chk.violation(rid, "anchor:firstuse:%s:%s" % (fam, gov or "ungoverned"), f.where(c),
+                chk.violation(rid, "anchor:firstuse:%s:%s" % (fam, gov if governed else "ungoverned"), f.where(c),
                               "%s prints a %s call anchor %s: the first call of a note must carry id=\"%sref:N\" (the list entry links "
                               "back to it) and later calls must not" % (f.name, fam,
-                                  "outside the `== scratch->%s->size` first-use test" % stack if gov is None else
-                                  "in the %s branch %s the id" % (gov, "with" if has_id else "without"), fam))
-    chk.floor(rid, n_calls, 6, "note call anchor sites")
+                                  "outside the `== scratch->%s->size` first-use test" % stack if not governed else
+                                  ("without the id on first use" if first_escape else "with the id on re-use"), fam))
+    chk.floor(rid, n_calls, 3, "note call anchor sites")
     r_listbound(P, chk, rid)
     # heading labels
     n_lab = 0
@@ -195,8 +255,28 @@ def r_anchor(P, chk):
                     tk = [p[0] for p in f.params if "token" in p[1]]
                     if tk:
                         tt = dict(P.enumerators("token_types"))
-                        b = f.cfg.positions().get(c["i"], (None,))[0]
-                        types = {nm for nm, v in tt.items() if b in edpe_blocks(f, tk[0] + "->type", v)}
+
+                        def types_at(g, node, depth=0):
+                            gt = [p[0] for p in g.params if "token" in p[1]]
+                            if not gt:
+                                return None
+                            dk = gt[0] + "->type"
+                            dispatches = any((x["k"] == "SwitchStmt" and key(x["c"][0]) == dk) or
+                                             (x["k"] == "BinaryOperator" and x["op"] in ("==", "!=") and key(x["c"][0]) == dk) for x in g.walk())
+                            if dispatches:
+                                b = g.cfg.positions().get(node["i"], (None,))[0]
+                                return {nm for nm, v in tt.items() if b in edpe_blocks(g, dk, v)}
+                            if g.static and depth < 2:
+                                out = set()
+                                sites = [(h, c2) for h in g.unit.funcs.values() if h is not g for c2 in h.calls(g.name)]
+                                for h, c2 in sites:
+                                    t2 = types_at(h, c2, depth + 1)
+                                    if t2 is None:
+                                        return None
+                                    out |= t2
+                                return out if sites else None
+                            return set(tt)
+                        types = types_at(f, c) or set()
                         if types and not any(re.match(r"BLOCK_(H\d|SETEXT_\d)$", t) for t in types):
                             ok = True
                             srcs = {"label_from_token (non-heading: %s)" % sorted(types)[:2]}
@@ -313,7 +393,7 @@ def r_anchor_seed(P, chk):
                     chk.violation(rid, "anchor:seed:%s:%s" % (f.name, key(x)), f.where(c),
                                   "the random anchor renaming in %s is applied to %s: %s - the id printed here cannot match the one "
                                   "printed where the renaming is applied once" % (f.name, key(x), bad))
-    chk.floor(rid, n, 3, "operands of the random anchor renaming")
+    chk.floor(rid, n, 2, "operands of the random anchor renaming")
 
 
 def _field_random(P, m):
@@ -387,14 +467,26 @@ def r_listbound(P, chk, rid="R-ANCHOR"):
                 k = re.sub(r"(?<![A-Za-z0-9_>])%s(?![A-Za-z0-9_])" % re.escape(nm), init, k)
             return k
         for w in f.walk():
-            if w["k"] != "ForStmt" or w["c"][1] is None:
+            if w["k"] == "WhileStmt" and w["c"][0] is not None:
+                w = dict(w, c=[None, w["c"][0], None, w["c"][1]])      # view a while loop as for (; cond; ) body
+            elif w["k"] != "ForStmt" or w["c"][1] is None:
                 continue
             body_peeks = [x for x in walk(w["c"][3]) if x["k"] == "CallExpr" and x.get("callee") == "stack_peek_index"
                           and re.search(r"->used_\w+$", pk(x["c"][1]))]
             if not body_peeks:
                 continue
             stk = pk(body_peeks[0]["c"][1])
-            exports = any(x["k"] == "CallExpr" and (x.get("callee") or "").startswith("mmd_export_token_tree") for x in walk(w["c"][3]))
+            def exporting(g, node, depth=0):
+                for x in walk(node):
+                    if x["k"] != "CallExpr" or not x.get("callee"):
+                        continue
+                    if x["callee"].startswith("mmd_export_token_tree"):
+                        return True
+                    h = g.unit.funcs.get(x["callee"])
+                    if h is not None and h is not g and depth < 2 and h.body is not None and exporting(h, h.body, depth + 1):
+                        return True
+                return False
+            exports = exporting(f, w["c"][3])
             if not exports:
                 continue
             n += 1
